@@ -583,6 +583,9 @@ class FiltersSet:
         for f in self.filters:
             if f["name"] != name:
                 continue
+            if self.__isdisabled(f["content"]):
+                # already disabled: do not wrap it a second time
+                return False
             ifcontrol.addchild(f["content"])
             f["content"] = ifcontrol
             f["enabled"] = False
